@@ -17,9 +17,12 @@ spec fn render_residual(v: Seq<String>, m: Seq<char>) -> bool {
     m == render(v) || m == render_known_defect(v)
 }
 
-// the message of a syntax diagnostic embeds the rendering verbatim after a fixed prefix
+// the message of a syntax diagnostic ends with the rendering, verbatim
+spec fn ends_with_seq(m: Seq<char>, t: Seq<char>) -> bool {
+    m.len() >= t.len() && m.subrange(m.len() - t.len(), m.len() as int) =~= t
+}
 spec fn embeds(m: Seq<char>, v: Seq<String>) -> bool {
-    exists |pre: Seq<char>, tail: Seq<char>| m == #[trigger] (pre + tail) && render_residual(v, tail)
+    ends_with_seq(m, render(v)) || ends_with_seq(m, render_known_defect(v))
 }
 
 spec fn perr_pos_ok(lookup: &line_col::LineColLookup, e: ParseError) -> bool {
